@@ -28,6 +28,7 @@ import (
 	"github.com/icon-project/goloop/module"
 	"github.com/icon-project/goloop/service"
 	"github.com/icon-project/goloop/service/contract"
+	"github.com/icon-project/goloop/service/eeproxy"
 	"github.com/icon-project/goloop/service/platform/basic"
 	"github.com/icon-project/goloop/service/scoreapi"
 	"github.com/icon-project/goloop/service/scoreresult"
@@ -64,10 +65,11 @@ type c15Cfg struct {
 type c15Env struct {
 	cfg     c15Cfg
 	dbase   db.Database
-	chain   *test.Chain
+	chain   *c15Chain
 	plt     base.Platform
 	cm      contract.ContractManager
 	genesis module.Transition
+	logger  log.Logger
 }
 
 var (
@@ -504,6 +506,24 @@ func c15BigOf(s string) *big.Int {
 	return v
 }
 
+// c15Chain lets the runner choose the concurrency level of the next block: > 1 selects
+// executeTxsConcurrent, i.e. transactions on worldVirtualState chains with account locks.
+type c15Chain struct {
+	*test.Chain
+	conc int
+}
+
+func (c *c15Chain) ConcurrencyLevel() int { return c.conc }
+
+// c15WorldLock is what CallHandler.Prepare does for a non-isolated contract call: the scripted
+// programs touch arbitrary accounts, so they run under the world write lock.
+func c15WorldLock(ctx contract.Context) (state.WorldContext, error) {
+	return ctx.GetFuture([]state.LockRequest{{Lock: state.AccountWriteLock, ID: state.WorldIDStr}}), nil
+}
+
+func (h *c15Script) Prepare(ctx contract.Context) (state.WorldContext, error) { return c15WorldLock(ctx) }
+func (h *c15Async) Prepare(ctx contract.Context) (state.WorldContext, error)  { return c15WorldLock(ctx) }
+
 type c15CB struct{ ch chan error }
 
 func (cb *c15CB) OnValidate(tr module.Transition, err error) { cb.ch <- err }
@@ -536,10 +556,11 @@ func c15GetEnv(cfg c15Cfg) *c15Env {
 	log.GlobalLogger().SetLevel(log.PanicLevel)
 	dbase := db.NewMapDB()
 	gs := c15Genesis(cfg)
-	chain, err := test.NewChain(c15T{}, c15Wallets[c15God], dbase, logger, nil, gs)
+	tchain, err := test.NewChain(c15T{}, c15Wallets[c15God], dbase, logger, nil, gs)
 	if err != nil {
 		panic(err)
 	}
+	chain := &c15Chain{Chain: tchain, conc: 1}
 	plt := &c15Platform{basic.Platform, cfg.legacy}
 	cm, err := plt.NewContractManager(dbase, dir, logger)
 	if err != nil {
@@ -592,7 +613,7 @@ func c15GetEnv(cfg c15Cfg) *c15Env {
 	if err != nil {
 		panic(err)
 	}
-	e := &c15Env{cfg: cfg, dbase: dbase, chain: chain, plt: plt, cm: cm, genesis: base}
+	e := &c15Env{cfg: cfg, dbase: dbase, chain: chain, plt: plt, cm: cm, genesis: base, logger: logger}
 	c15Envs[cfg] = e
 	return e
 }
@@ -664,6 +685,7 @@ type c15Runner struct {
 	bal    []*big.Int // balances at parent
 	stor   []string   // storage of the script accounts at parent
 	graph  string     // object graph of account 9 at parent
+	conc   int        // concurrency level for the next blocks
 }
 
 func c15NewRunner() Runner { return &c15Runner{} }
@@ -759,6 +781,14 @@ func (r *c15Runner) Step(t []string, o *Oracle) string {
 			o.Count("cfg-price-0")
 		}
 		return "ok"
+	case t[0] == "conc" && len(t) == 2:
+		// concurrency level of the following blocks (1 = sequential executor)
+		n, ok := num(t[1])
+		if r.env == nil || !ok || n < 1 || n > 8 {
+			return "bad-op"
+		}
+		r.conc = int(n)
+		return "ok"
 	case t[0] == "tx" && (len(t) == 6 || len(t) == 8):
 		if r.env == nil {
 			return "bad-op"
@@ -828,7 +858,21 @@ func (r *c15Runner) exec(o *Oracle) string {
 	}
 	txl := transaction.NewTransactionListFromSlice(r.env.dbase, list)
 	tr := service.NewTransition(r.parent, nil, txl, common.NewBlockInfo(r.height, ts), common.NewConsensusInfo(nil, nil, nil), false)
+	if r.conc < 1 {
+		r.conc = 1
+	}
+	r.env.chain.conc = r.conc
+	if r.env.cfg.legacy&2 != 0 && r.conc > 1 {
+		// checkBalance's legacy branch reads PropInitialSnapshot, which executeTxsConcurrent does not
+		// pass to the per-transaction contexts (nil interface panic): not a combination to run
+		r.env.chain.conc = 1
+		o.Count("legacy-balance-check-forced-sequential")
+	}
 	verr, eerr := c15Run(tr)
+	r.env.chain.conc = 1
+	if r.conc > 1 {
+		o.Count("block-concurrent-executor")
+	}
 	if verr != nil {
 		r.height--
 		o.Count("block-rejected")
@@ -1007,6 +1051,7 @@ func (r *c15Runner) exec(o *Oracle) string {
 	}
 	r.parent = tr
 	r.bal, r.stor, r.graph = after.bal, after.stor, after.graph
+	r.probeVirtual(tr, o)
 	bs := make([]string, len(after.bal))
 	for a, b := range after.bal {
 		if a == c15God {
@@ -1017,6 +1062,97 @@ func (r *c15Runner) exec(o *Oracle) string {
 		}
 	}
 	return strings.Join(recs, ";") + "|" + strings.Join(bs, ",") + "|" + strings.Join(after.stor, ",") + "|" + memGraph
+}
+
+// probeVirtual states the property on worldVirtualState chains, the way executeTxsConcurrent
+// drives them (futures with account write locks, rollback snapshot taken before the
+// predecessor commits, Execute, Commit, Realize), on the state the block just produced. It
+// needs the legacy balance check (the only way a successful transfer can end up unable to
+// pay its fee, i.e. the "rollback all changes" site of Execute); the real concurrent
+// executor cannot be used for that because it does not hand PropInitialSnapshot to the
+// per-transaction contexts. Two transfers payer -> recipient: the first leaves the payer
+// with about one fee, the second succeeds and then cannot pay.
+func (r *c15Runner) probeVirtual(tr module.Transition, o *Oracle) {
+	cfg := r.env.cfg
+	if cfg.legacy != 2 || cfg.price == 0 || cfg.dflt == 0 || cfg.invoke < cfg.dflt {
+		return
+	}
+	fee := big.NewInt(cfg.dflt * cfg.price)
+	need := new(big.Int).Add(new(big.Int).Mul(fee, big.NewInt(3)), big.NewInt(10))
+	a := -1
+	for i := 1; i < c15NEOA; i++ {
+		if r.bal[i].Cmp(need) >= 0 && (a < 0 || r.bal[i].Cmp(r.bal[a]) > 0) {
+			a = i
+		}
+	}
+	if a < 0 {
+		return
+	}
+	b := a%(c15NEOA-1) + 1
+	wss, err := service.NewWorldSnapshot(r.env.dbase, r.env.plt, tr.Result(), nil)
+	if err != nil {
+		panic(err)
+	}
+	ws, err := state.WorldStateFromSnapshot(wss)
+	if err != nil {
+		panic(err)
+	}
+	wc0 := state.NewWorldContext(ws, common.NewBlockInfo(r.height+1, (r.height+1)*1000000), common.NewConsensusInfo(nil, nil, nil), r.env.plt)
+	initial := ws.GetSnapshot()
+	lq := []state.LockRequest{
+		{ID: string(c15Addrs[a].ID()), Lock: state.AccountWriteLock},
+		{ID: string(c15Addrs[b].ID()), Lock: state.AccountWriteLock},
+	}
+	// variant by height: the payer keeps exactly one fee (charged after the rollback) or one less (price -> 0)
+	rest := new(big.Int).Set(fee)
+	if r.height%2 == 0 {
+		rest.Sub(rest, big.NewInt(1))
+	}
+	v1 := new(big.Int).Sub(new(big.Int).Sub(r.bal[a], fee), rest)
+	values := []*big.Int{v1, big.NewInt(1), big.NewInt(0)}
+	wcs := []state.WorldContext{}
+	prev := wc0
+	for range values {
+		prev = prev.GetFuture(lq)
+		wcs = append(wcs, prev)
+	}
+	// rollback snapshots first: nothing is realized yet for the later transactions
+	var snaps []state.WorldSnapshot
+	for _, wc := range wcs {
+		snaps = append(snaps, wc.WorldVirtualState().GetSnapshot())
+	}
+	exp := []*big.Int{new(big.Int).Set(r.bal[a]), new(big.Int).Set(r.bal[b])}
+	for i, v := range values {
+		ctx := contract.NewContext(wcs[i], r.env.cm, nil, r.env.chain, r.env.logger, nil, eeproxy.ForTransaction)
+		ctx.SetProperty(contract.PropInitialSnapshot, initial)
+		ctx.SetTransactionInfo(&state.TransactionInfo{Group: module.TransactionGroupNormal, Index: int32(i),
+			Hash: crypto.SHA3Sum256([]byte(fmt.Sprintf("probe-%d-%d", r.height, i))), From: c15Addrs[a]})
+		ctx.UpdateSystemInfo()
+		txh, err := transaction.NewHandler(r.env.cm, module.TransactionGroupNormal, c15Addrs[a], c15Addrs[b], v, big.NewInt(cfg.dflt), nil, nil)
+		if err != nil {
+			panic(err)
+		}
+		rct, err := txh.Execute(ctx, snaps[i], false)
+		txh.Dispose()
+		if err != nil {
+			panic(err)
+		}
+		wcs[i].WorldVirtualState().Commit()
+		f := new(big.Int).Mul(rct.StepUsed(), rct.StepPrice())
+		exp[0].Sub(exp[0], f)
+		if rct.Status() == module.StatusSuccess {
+			exp[0].Sub(exp[0], v)
+			exp[1].Add(exp[1], v)
+		} else {
+			o.Count("virtual-state-failed-tx")
+		}
+	}
+	wcs[len(wcs)-1].WorldVirtualState().Realize()
+	ga := ws.GetAccountState(c15Addrs[a].ID()).GetBalance()
+	gb := ws.GetAccountState(c15Addrs[b].ID()).GetBalance()
+	o.Count("virtual-state-probe")
+	o.Check(ga.Cmp(exp[0]) == 0 && gb.Cmp(exp[1]) == 0, "virtual-state-failed-tx-changes-more-than-fee",
+		"account-lock chain %d->%d values %v: payer %s recipient %s, receipts (failed: fee only) explain %s / %s", a, b, values, ga, gb, exp[0], exp[1])
 }
 
 // ---- generator (shared by C15 and C16; bias selects the mix)
@@ -1068,6 +1204,11 @@ func c15GenCase(g *Gen, failBias bool) {
 		legacy = 1 + g.Intn(3)
 	}
 	g.Emit("cfg %d %d %d %d %d %d", price, dflt, input, call, invoke, legacy)
+	if g.Intn(2) == 0 {
+		// concurrent executor: transactions run on worldVirtualState chains under account locks
+		// (plain transfers) or the world lock (scripted calls); same outcome required
+		g.Emit("conc %d", g.Pick(2, 4, 8))
+	}
 	// funding block(s): god sends to the EOAs; amounts around typical fee sizes so that
 	// out-of-balance cases happen
 	scale := price*dflt + 1
@@ -1128,10 +1269,16 @@ func c15GenCase(g *Gen, failBias bool) {
 		}
 		g.Emit("tx t 0 %d %d %d", a, credit+limf*price, dflt)
 		g.Emit("exec")
-		g.Emit("tx t 4 %d %d %d", 1+g.Intn(3), v1, dflt)
+		rcpt := 1 + g.Intn(3)
+		g.Emit("tx t 4 %d %d %d", rcpt, v1, dflt)
 		g.Emit("tx c %d 4 %d %d %d f1", a, credit, limf, nbf)
 		if prog3 == "" {
-			g.Emit("tx t 4 %d %d %d", 1+g.Intn(3), w, lim3)
+			// mostly the same recipient again: under account locks both accounts of this transaction
+			// then have an earlier locker in the block and nothing is realized when it starts
+			if g.Intn(4) == 0 {
+				rcpt = 1 + g.Intn(3)
+			}
+			g.Emit("tx t 4 %d %d %d", rcpt, w, lim3)
 		} else {
 			g.Emit("tx c 4 %d %d %d %d %s", c15Script1, w, lim3, nb3, prog3)
 		}
@@ -1174,6 +1321,9 @@ func c15GenCase(g *Gen, failBias bool) {
 	}
 	nblocks := 2 + g.Intn(5)
 	for b := 0; b < nblocks; b++ {
+		if g.Intn(6) == 0 {
+			g.Emit("conc %d", g.Pick(1, 1, 3, 4))
+		}
 		if g.Intn(5) == 0 {
 			// directed: PreValidate credits account 4 with a value that the failing program never
 			// delivers; account 4 then spends it in the same block (checkBalance fails, or with the
@@ -1322,7 +1472,7 @@ func c15GenCase(g *Gen, failBias bool) {
 func c15Malformed(g *Gen) {
 	g.Emit("reset")
 	for _, l := range []string{"exec", "tx t 1 2 3 4", "cfg 1 2 3", "cfg 1 10 1 5 1000 0", "tx t 9 1 0 10", "tx c 1 5 0 100 3 zz",
-		"tx c 1 5 0 100 1 e1", "tx q 1 2 0 10", "tx c 1 5 0 100 36 z1", "tx c 1 5 0 100 35 z", "tx t 1 2 -5 10", "cfg 1 10 1 5 1000 0", "frob", "exec"} {
+		"tx c 1 5 0 100 1 e1", "tx q 1 2 0 10", "conc 0", "conc 9", "conc x", "conc 2", "tx c 1 5 0 100 36 z1", "tx c 1 5 0 100 35 z", "tx t 1 2 -5 10", "cfg 1 10 1 5 1000 0", "frob", "exec"} {
 		g.Emit("%s", l)
 	}
 }
